@@ -111,8 +111,9 @@ Definition enum_name (tid : string) (v : Z) : option string :=
 (* ---- common/utils.py struct_parse(struct, stream, stream_pos=pos)
         try:    stream.seek(pos); return struct.parse_stream(stream)
         except ConstructError as e:  raise ELFParseError(str(e))
-        except OverflowError as e:   raise ELFParseError(str(e))     <- repaired code only
-   [legacy = true] is the code before the repair (the OverflowError of seek escapes).
+        a seek the stream refuses (OverflowError / ValueError / OSError) -> ELFParseError   <- repaired code only
+   [legacy = true] is the code before the repairs 2fec52a / (file streams) the later one: the
+   exception of seek escapes.
    Bytes read: construct reads field by field with stream.read(field size); a short
    field raises FieldError after consuming what was left, so a failing parse has
    read everything from pos to EOF, a successful one exactly its encoding. *)
@@ -120,7 +121,7 @@ Definition struct_parse_at (legacy : bool) (L : layout) (binds : list (string * 
     (bs : list Z) (pos : Z) : M record := fun c =>
   match seek_error pos with
   | Some t =>
-      if String.eqb t "OverflowError" && negb legacy then (Err EParse, c) else (Err (EPy t), c)
+      if negb legacy then (Err EParse, c) else (Err (EPy t), c)
   | None =>
       (* a static layout reads at most its size; one with file-sized arrays whatever is there *)
       let rest := rest_at bs pos in
